@@ -7,7 +7,7 @@ for id in $ids; do
   [ -f seeded/$id/patch.diff ] || continue
   if ! git -C /repo diff --quiet; then echo "/repo is dirty, refusing"; exit 2; fi
   git -C /repo apply "$PWD/seeded/$id/patch.diff" || { echo "$id: patch does not apply"; continue; }
-  out=$(./check $id 2>&1 | grep -E "^(VIOLATION|UNDECIDED|OK|KNOWN|NOT)" | head -2 | cut -c1-220)
+  pid=$(echo $id | sed "s/[a-z]*$//"); out=$(./check $pid 2>&1 | grep -E "^(VIOLATION|UNDECIDED|OK|KNOWN|NOT)" | head -2 | cut -c1-220)
   git -C /repo checkout -- .
   echo "seed=$id :: $out"
 done
